@@ -1,6 +1,294 @@
 From TU Require Import Base C01_Model C01_Proofs C04_Model.
-From Coq Require Import Lia.
+From Coq Require Import Lia ZifyBool ZifyN ZifyNat.
 Open Scope N_scope.
+Ltac Zify.zify_post_hook ::= Z.div_mod_to_equations.
 
+Lemma utf8_decode_inv_aux n : forall l, (length l <= n)%nat -> forall s, utf8_decode l = Some s -> utf8s s = l /\ scalars s = true.
+Proof.
+  induction n as [|n IH]; intros l Hl s.
+  { destruct l; [|cbn in Hl; lia]. cbn. intros H. injection H as <-. split; reflexivity. }
+  destruct l as [|b0 r0]; [cbn; intros H; injection H as <-; split; reflexivity|].
+  cbn [length] in Hl. cbn [utf8_decode].
+  destruct (b0 <? 128) eqn:E0.
+  { destruct (utf8_decode r0) as [s'|] eqn:Er; cbn; [|discriminate]. intros H. injection H as <-.
+    destruct (IH r0 ltac:(lia) s' Er) as [H1 H2]. cbn [utf8s flat_map]. fold (utf8s s'). rewrite H1.
+    unfold utf8. rewrite E0. cbn [app]. split; [reflexivity|]. unfold scalars in *. cbn [forallb]. rewrite H2.
+    unfold scalar. replace (b0 <? 55296) with true by lia. reflexivity. }
+  destruct (b0 <? 194) eqn:E1; [discriminate|].
+  destruct (b0 <? 224) eqn:E2.
+  { destruct r0 as [|b1 r1]; [discriminate|]. unfold cont. destruct ((128 <=? b1) && (b1 <? 192)) eqn:C1; [|discriminate].
+    destruct (utf8_decode r1) as [s'|] eqn:Er; cbn; [|discriminate]. intros H. injection H as <-.
+    cbn [length] in Hl. destruct (IH r1 ltac:(lia) s' Er) as [H1 H2]. cbn [utf8s flat_map]. fold (utf8s s'). rewrite H1.
+    set (c := (b0 - 192) * 64 + (b1 - 128)). unfold utf8.
+    replace (c <? 128) with false by lia. replace (c <? 2048) with true by lia. cbn [app].
+    split; [f_equal; [lia|f_equal; lia]|]. unfold scalars in *. cbn [forallb]. rewrite H2.
+    unfold scalar. replace (c <? 55296) with true by lia. reflexivity. }
+  destruct (b0 <? 240) eqn:E3.
+  { destruct r0 as [|b1 [|b2 r2]]; try discriminate. cbv zeta. unfold cont.
+    set (c := (b0 - 224) * 4096 + (b1 - 128) * 64 + (b2 - 128)).
+    destruct ((128 <=? b1) && (b1 <? 192)) eqn:C1; [|discriminate].
+    destruct ((128 <=? b2) && (b2 <? 192)) eqn:C2; [|discriminate].
+    destruct (2048 <=? c) eqn:C3; [|discriminate]. destruct (scalar c) eqn:C4; [|discriminate]. cbn [andb].
+    destruct (utf8_decode r2) as [s'|] eqn:Er; cbn; [|discriminate]. intros H. injection H as <-.
+    cbn [length] in Hl. destruct (IH r2 ltac:(lia) s' Er) as [H1 H2]. cbn [utf8s flat_map]. fold (utf8s s'). rewrite H1.
+    unfold utf8. replace (c <? 128) with false by lia. replace (c <? 2048) with false by lia.
+    replace (c <? 65536) with true by lia. cbn [app].
+    split; [f_equal; [lia|f_equal; [lia|f_equal; lia]]|]. unfold scalars in *. cbn [forallb]. rewrite H2, C4. reflexivity. }
+  destruct (b0 <? 245) eqn:E4; [|discriminate].
+  destruct r0 as [|b1 [|b2 [|b3 r3]]]; try discriminate. cbv zeta. unfold cont.
+  set (c := (b0 - 240) * 262144 + (b1 - 128) * 4096 + (b2 - 128) * 64 + (b3 - 128)).
+  destruct ((128 <=? b1) && (b1 <? 192)) eqn:C1; [|discriminate].
+  destruct ((128 <=? b2) && (b2 <? 192)) eqn:C2; [|discriminate].
+  destruct ((128 <=? b3) && (b3 <? 192)) eqn:C3; [|discriminate].
+  destruct (65536 <=? c) eqn:C4; [|discriminate]. destruct (c <? 1114112) eqn:C5; [|discriminate]. cbn [andb].
+  destruct (utf8_decode r3) as [s'|] eqn:Er; cbn; [|discriminate]. intros H. injection H as <-.
+  cbn [length] in Hl. destruct (IH r3 ltac:(lia) s' Er) as [H1 H2]. cbn [utf8s flat_map]. fold (utf8s s'). rewrite H1.
+  unfold utf8. replace (c <? 128) with false by lia. replace (c <? 2048) with false by lia.
+  replace (c <? 65536) with false by lia. cbn [app].
+  split; [f_equal; [lia|f_equal; [lia|f_equal; [lia|f_equal; lia]]]|]. unfold scalars in *. cbn [forallb]. rewrite H2.
+  unfold scalar. replace (57344 <=? c) with true by lia. rewrite C5. cbn. rewrite orb_true_r. reflexivity.
+Qed.
+
+Lemma utf8_decode_inv l s : utf8_decode l = Some s -> utf8s s = l /\ scalars s = true.
+Proof. apply (utf8_decode_inv_aux (length l)). lia. Qed.
+
+Lemma utf8s_inj a b : scalars a = true -> scalars b = true -> utf8s a = utf8s b -> a = b.
+Proof.
+  intros Ha Hb H. apply utf8_decode_utf8s in Ha, Hb. rewrite H in Ha. congruence.
+Qed.
+
+(** * the regular byte tokens *)
+Lemma bytes_reg_length : length bytes_reg = 256%nat.
+Proof. unfold bytes_reg. rewrite map_length, seq_length. reflexivity. Qed.
+
+Lemma bytes_reg_nth id : id < 256 -> nth_error bytes_reg (N.to_nat id) = Some [id].
+Proof.
+  intros H. unfold bytes_reg. rewrite nth_error_map.
+  rewrite (nth_error_nth' _ 0%nat) by (rewrite seq_length; lia). rewrite seq_nth by lia. cbn.
+  rewrite N2Nat.id. reflexivity.
+Qed.
+
+Lemma bytes_reg_In x : x < 256 -> In [x] bytes_reg.
+Proof. intros H. eapply nth_error_In. apply bytes_reg_nth. exact H. Qed.
+
+Global Opaque bytes_reg.
+
+(** * invariant of a built tokenizer *)
+Definition Built (t : tk) : Prop :=
+  b_off (k_base t) = n_reg t /\ NoDup (k_sv t) /\
+  ((k_kind t = 0 /\ k_reg t = bytes_reg) \/
+   (k_kind t = 1 /\ k_reg t = map utf8 (k_A t)) \/
+   (k_kind t = 2 /\ k_reg t = bytes_reg ++ k_merges t)).
+
+Lemma build_Built q t : build q = Some t -> Built t.
+Proof.
+  unfold build, Built, k_sv, n_reg. destruct (q_kind q) as [|[p|p|]] eqn:Ek.
+  - unfold byte_base. destruct (mk_base _ _ _ _ _) as [b|] eqn:Hb; [|discriminate]. cbn [option_map]. intros H. injection H as <-. cbn [k_base k_reg k_kind k_A k_merges].
+    apply mk_base_spec in Hb as (Hoff & Hsv & _). rewrite Hoff, Hsv, bytes_reg_length. split; [reflexivity|].
+    split; [apply uniq_NoDup|]. left. auto.
+  - destruct (mk_base _ _ _ _ _) as [b|] eqn:Hb; [|discriminate]. cbn [option_map]. intros H. injection H as <-. cbn [k_base k_reg k_kind k_A k_merges].
+    apply mk_base_spec in Hb as (Hoff & Hsv & _). rewrite Hoff, Hsv, app_length, bytes_reg_length.
+    split; [lia|]. split; [apply uniq_NoDup|]. right. right. auto.
+  - destruct (mk_base _ _ _ _ _) as [b|] eqn:Hb; [|discriminate]. cbn [option_map]. intros H. injection H as <-. cbn [k_base k_reg k_kind k_A k_merges].
+    apply mk_base_spec in Hb as (Hoff & Hsv & _). rewrite Hoff, Hsv, app_length, bytes_reg_length.
+    split; [lia|]. split; [apply uniq_NoDup|]. right. right. auto.
+  - unfold char_base. destruct (mk_base _ _ _ _ _) as [b|] eqn:Hb; [|discriminate]. cbn [option_map]. intros H. injection H as <-. cbn [k_base k_reg k_kind k_A k_merges].
+    apply mk_base_spec in Hb as (Hoff & Hsv & _). rewrite Hoff, Hsv, map_length. split; [reflexivity|].
+    split; [apply uniq_NoDup|]. right. left. auto.
+Qed.
+
+Lemma kind_cases t : Built t -> k_kind t = 0 \/ k_kind t = 1 \/ k_kind t = 2.
+Proof. intros (_ & _ & [[H _]|[[H _]|[H _]]]); auto. Qed.
+
+(** * get_vocab *)
 Lemma vocab_len_l t : N.of_nat (length (get_vocab t)) = vocab_size t.
 Proof. unfold get_vocab, vocab_size, n_reg. rewrite app_length, map_length. lia. Qed.
+
+Lemma vocab_nth_reg t id : id < n_reg t -> nth_error (get_vocab t) (N.to_nat id) = nth_error (k_reg t) (N.to_nat id).
+Proof. unfold get_vocab, n_reg. intros H. apply nth_error_app1. lia. Qed.
+
+Lemma vocab_nth_sp t id : Built t -> n_reg t <= id ->
+  nth_error (get_vocab t) (N.to_nat id) = sp_bytes t id.
+Proof.
+  intros (Hoff & _) H. unfold get_vocab, sp_bytes, sp_tok, n_reg in *. rewrite Hoff.
+  replace (id <? N.of_nat (length (k_reg t))) with false by lia.
+  rewrite nth_error_app2 by lia. rewrite nth_error_map.
+  replace (N.to_nat id - length (k_reg t))%nat with (N.to_nat (id - N.of_nat (length (k_reg t)))) by lia.
+  reflexivity.
+Qed.
+
+Lemma sp_bytes_low t id : Built t -> id < n_reg t -> sp_bytes t id = None.
+Proof. intros (Hoff & _) H. unfold sp_bytes, sp_tok. rewrite Hoff. replace (id <? n_reg t) with true by lia. reflexivity. Qed.
+
+(** id_to_token(id) = get_vocab()[id] for every id (hence None from vocab_size on) *)
+Lemma id_to_token_nth t id : Built t -> id_to_token t id = nth_error (get_vocab t) (N.to_nat id).
+Proof.
+  intros HB. pose proof HB as (Hoff & Hnd & Hk). unfold id_to_token.
+  destruct Hk as [[Hk Hr]|[[Hk Hr]|[Hk Hr]]]; rewrite Hk.
+  - assert (Hn : n_reg t = 256) by (unfold n_reg; rewrite Hr, bytes_reg_length; reflexivity).
+    destruct (id <? 256) eqn:E.
+    + rewrite vocab_nth_reg by lia. rewrite Hr, bytes_reg_nth by lia. reflexivity.
+    + rewrite vocab_nth_sp by (auto; lia). reflexivity.
+  - destruct (id <? n_reg t) eqn:E.
+    + rewrite sp_bytes_low by (auto; lia). rewrite vocab_nth_reg by lia. reflexivity.
+    + rewrite vocab_nth_sp by (auto; lia). destruct (sp_bytes t id) eqn:Es; [reflexivity|].
+      apply nth_error_None. unfold n_reg in E. lia.
+  - assert (Hn : 256 <= n_reg t) by (unfold n_reg; rewrite Hr, app_length, bytes_reg_length; lia).
+    destruct (id <? 256) eqn:E.
+    + rewrite vocab_nth_reg by lia. rewrite Hr, nth_error_app1 by (rewrite bytes_reg_length; lia).
+      rewrite bytes_reg_nth by lia. reflexivity.
+    + destruct (id <? n_reg t) eqn:E2; [rewrite vocab_nth_reg by lia; reflexivity|].
+      rewrite vocab_nth_sp by (auto; lia). reflexivity.
+Qed.
+
+Lemma id_to_token_spec_l t id : Built t ->
+  (id < vocab_size t -> id_to_token t id = nth_error (get_vocab t) (N.to_nat id)
+                        /\ exists tok, id_to_token t id = Some tok)
+  /\ (vocab_size t <= id -> id_to_token t id = None).
+Proof.
+  intros HB. rewrite id_to_token_nth by exact HB. pose proof (vocab_len_l t) as Hl. split.
+  - intros H. split; [reflexivity|]. destruct (nth_error (get_vocab t) (N.to_nat id)) eqn:E; [eexists; reflexivity|].
+    apply nth_error_None in E. lia.
+  - intros H. apply nth_error_None. lia.
+Qed.
+
+(** * special ids lie after the regular ids, inside the vocabulary *)
+Lemma sp_id_range t s i : Built t -> sp_id (b_off (k_base t)) (k_sv t) s = Some i -> n_reg t <= i < vocab_size t.
+Proof. intros (Hoff & _) H. apply sp_id_tok in H. unfold vocab_size. rewrite Hoff in H. lia. Qed.
+
+Lemma ids_of_range t toks ids : Built t -> ids_of (k_base t) toks ids -> Forall (fun i => n_reg t <= i < vocab_size t) ids.
+Proof. intros HB. induction 1 as [|s i toks ids Hi Hr IH]; constructor; [eapply sp_id_range; eauto|exact IH]. Qed.
+
+Lemma special_range_l q t : build q = Some t ->
+  n_reg t <= b_pad (k_base t) < vocab_size t
+  /\ Forall (fun i => n_reg t <= i < vocab_size t) (b_pre (k_base t))
+  /\ Forall (fun i => n_reg t <= i < vocab_size t) (b_suf (k_base t))
+  /\ (k_kind t = 1 -> exists u, unk_id t (q_unk q) = Some u /\ n_reg t <= u < vocab_size t)
+  /\ (k_kind t <> 1 -> unk_id t (q_unk q) = None).
+Proof.
+  intros Hb. pose proof (build_Built _ _ Hb) as HB.
+  assert (Hm : exists off toks, mk_base off toks (q_pad q) (q_prefix q) (q_suffix q) = Some (k_base t)
+            /\ (k_kind t = 1 -> In (q_unk q) toks)).
+  { unfold build in Hb. destruct (q_kind q) as [|[p|p|]].
+    - unfold byte_base in Hb. destruct (mk_base _ _ _ _ _) as [b|] eqn:E; [|discriminate]. injection Hb as <-.
+      cbn [k_base k_reg k_kind k_A k_merges]. eexists _, _. split; [exact E|discriminate].
+    - destruct (mk_base _ _ _ _ _) as [b|] eqn:E; [|discriminate]. injection Hb as <-.
+      cbn [k_base k_reg k_kind k_A k_merges]. eexists _, _. split; [exact E|discriminate].
+    - destruct (mk_base _ _ _ _ _) as [b|] eqn:E; [|discriminate]. injection Hb as <-.
+      cbn [k_base k_reg k_kind k_A k_merges]. eexists _, _. split; [exact E|discriminate].
+    - unfold char_base in Hb. destruct (mk_base _ _ _ _ _) as [b|] eqn:E; [|discriminate]. injection Hb as <-.
+      cbn [k_base k_reg k_kind k_A k_merges]. eexists _, _. split; [exact E|]. intros _. apply in_or_app. right. left. reflexivity. }
+  destruct Hm as (off & toks & Hm & Hunk). apply mk_base_spec in Hm as (Hoff & Hsv & Hp & Hq & Hpad).
+  rewrite <- Hoff, <- Hsv in Hpad. repeat split.
+  - eapply sp_id_range; eauto.
+  - eapply sp_id_range; eauto.
+  - eapply ids_of_range; eauto.
+  - eapply ids_of_range; eauto.
+  - intros Hk. unfold unk_id. rewrite Hk. destruct (sp_id_In (b_off (k_base t)) (k_sv t) (q_unk q)) as [u Hu].
+    { unfold k_sv. rewrite Hsv. apply uniq_In. auto. }
+    exists u. split; [exact Hu|]. eapply sp_id_range; eauto.
+  - intros Hk. unfold unk_id. destruct (kind_cases _ HB) as [H|[H|H]]; rewrite H; try reflexivity. contradiction.
+Qed.
+
+(** * token_to_id inverts get_vocab on UTF-8 tokens *)
+Definition WF (t : tk) : Prop := NoDup (k_reg t) /\ Forall (fun m => (2 <= length m)%nat) (k_merges t).
+Definition Disjoint (t : tk) : Prop := forall s, In s (k_sv t) -> ~ In (utf8s s) (k_reg t).
+
+Lemma NoDup_app_r {A} (l m : list A) : NoDup (l ++ m) -> NoDup m.
+Proof. induction l as [|x l IH]; cbn; [auto|]. intros H. inversion H; subst. auto. Qed.
+
+Lemma NoDup_map_inv' {A B} (f : A -> B) l : NoDup (map f l) -> NoDup l.
+Proof.
+  induction l as [|x l IH]; cbn; intros H; [constructor|]. inversion H; subst. constructor; [|auto].
+  intros Hin. apply H2. apply in_map. exact Hin.
+Qed.
+
+Lemma token_to_id_spec_l t id tok s : Built t -> WF t -> Disjoint t ->
+  Forall (fun x => scalars x = true) (k_sv t) -> scalars (k_A t) = true ->
+  nth_error (get_vocab t) (N.to_nat id) = Some tok -> utf8_decode tok = Some s ->
+  token_to_id t s = Some id.
+Proof.
+  intros HB (Hnd & Hm2) Hdis Hsc HscA Hnth Hdec. pose proof HB as (Hoff & Hndsv & Hk).
+  apply utf8_decode_inv in Hdec as [Hs Hss]. unfold token_to_id.
+  destruct (id <? n_reg t) eqn:Elt.
+  - (* a regular token *)
+    rewrite vocab_nth_reg in Hnth by lia.
+    assert (Hsp : sp_id (b_off (k_base t)) (k_sv t) s = None).
+    { destruct (sp_id _ _ s) as [i|] eqn:E; [|reflexivity]. exfalso. apply sp_id_Some_In in E.
+      apply (Hdis _ E). rewrite Hs. eapply nth_error_In; eauto. }
+    rewrite Hsp. destruct Hk as [[Hk Hr]|[[Hk Hr]|[Hk Hr]]]; rewrite Hk.
+    + assert (Hn : n_reg t = 256) by (unfold n_reg; rewrite Hr, bytes_reg_length; reflexivity).
+      rewrite Hr, bytes_reg_nth in Hnth by lia. injection Hnth as <-. rewrite Hs. reflexivity.
+    + rewrite Hr, nth_error_map in Hnth. destruct (nth_error (k_A t) (N.to_nat id)) as [c|] eqn:Ec; [|discriminate].
+      cbn in Hnth. injection Hnth as <-.
+      assert (Hc : scalar c = true).
+      { unfold scalars in HscA. rewrite forallb_forall in HscA. apply HscA. eapply nth_error_In; eauto. }
+      assert (s = [c]).
+      { apply utf8s_inj; [exact Hss|unfold scalars; cbn; rewrite Hc; reflexivity|]. rewrite Hs. cbn. rewrite app_nil_r. reflexivity. }
+      subst s. rewrite Hr in Hnd. apply NoDup_map_inv' in Hnd. rewrite (nth_index_ofN _ Hnd _ _ Ec). cbn [option_map]. rewrite N2Nat.id. reflexivity.
+    + assert (Hn : n_reg t = 256 + N.of_nat (length (k_merges t))) by (unfold n_reg; rewrite Hr, app_length, bytes_reg_length; lia).
+      rewrite Hr in Hnth. destruct (id <? 256) eqn:E256.
+      * rewrite nth_error_app1 in Hnth by (rewrite bytes_reg_length; lia). rewrite bytes_reg_nth in Hnth by lia.
+        injection Hnth as <-. rewrite Hs. reflexivity.
+      * rewrite nth_error_app2 in Hnth by (rewrite bytes_reg_length; lia). rewrite bytes_reg_length in Hnth.
+        pose proof (nth_error_In _ _ Hnth) as Hin. rewrite Forall_forall in Hm2. specialize (Hm2 _ Hin).
+        rewrite Hs. destruct tok as [|x [|y r]]; cbn in Hm2; try lia.
+        rewrite Hr in Hnd. apply NoDup_app_r in Hnd. rewrite (nth_index_of _ Hnd _ _ Hnth). cbn [option_map]. f_equal. lia.
+  - (* a special token *)
+    rewrite vocab_nth_sp in Hnth by (auto; lia). unfold sp_bytes in Hnth.
+    destruct (sp_tok (b_off (k_base t)) (k_sv t) id) as [s0|] eqn:E0; [|discriminate]. cbn in Hnth. injection Hnth as <-.
+    assert (Hin0 : In s0 (k_sv t)).
+    { unfold sp_tok in E0. destruct (id <? b_off (k_base t)); [discriminate|]. eapply nth_error_In; eauto. }
+    assert (s = s0).
+    { apply utf8s_inj; [exact Hss| |exact Hs]. rewrite Forall_forall in Hsc. auto. }
+    subst s0. rewrite (sp_tok_id _ _ _ _ Hndsv E0).
+    destruct Hk as [[Hk Hr]|[[Hk Hr]|[Hk Hr]]]; rewrite Hk; try reflexivity.
+    destruct (utf8s s) as [|x [|y r]] eqn:Eu; try reflexivity. exfalso.
+    apply (Hdis _ Hin0). rewrite Eu, Hr. apply bytes_reg_In.
+    pose proof (utf8s_lt256 _ Hss) as Hlt. rewrite Eu in Hlt. inversion Hlt; subst. assumption.
+Qed.
+
+(** * decoding a single regular id gives that token's bytes (as a string, when they are UTF-8) *)
+Lemma decode_single_l t id : Built t -> scalars (k_A t) = true -> id < n_reg t ->
+  decode_ids t [id] false = obind (nth_error (k_reg t) (N.to_nat id)) utf8_decode.
+Proof.
+  intros HB HscA Hlt. pose proof HB as (Hoff & Hndsv & Hk). unfold decode_ids.
+  destruct Hk as [[Hk Hr]|[[Hk Hr]|[Hk Hr]]]; rewrite Hk.
+  - assert (Hn : n_reg t = 256) by (unfold n_reg; rewrite Hr, bytes_reg_length; reflexivity).
+    unfold byte_decode. cbn [byte_decode_bytes]. replace (id <? 256) with true by lia. cbn [option_map obind].
+    rewrite Hr, bytes_reg_nth by lia. reflexivity.
+  - cbn [char_decode]. rewrite Hr, nth_error_map. unfold n_reg in Hlt. rewrite Hr, map_length in Hlt.
+    destruct (nth_error (k_A t) (N.to_nat id)) as [c|] eqn:Ec; [|apply nth_error_None in Ec; lia].
+    cbn [option_map obind].
+    assert (Hc : scalar c = true).
+    { unfold scalars in HscA. rewrite forallb_forall in HscA. apply HscA. eapply nth_error_In; eauto. }
+    pose proof (utf8_decode_cons c [] Hc) as H. rewrite app_nil_r in H. rewrite H. reflexivity.
+  - cbn [bpe_decode_bytes]. replace (id <? n_reg t) with true by lia.
+    destruct (nth_error (k_reg t) (N.to_nat id)) as [bs|] eqn:Eb; [|apply nth_error_None in Eb; unfold n_reg in Hlt; lia].
+    cbn [option_map obind]. rewrite app_nil_r. reflexivity.
+Qed.
+
+(** * the boolean premises *)
+Lemma mem_str_In x l : mem_str x l = true <-> In x l.
+Proof.
+  induction l as [|y l IH]; cbn [mem_str In]; [split; [discriminate|tauto]|].
+  rewrite orb_true_iff, IH, str_eqb_eq. split; intros [H|H]; auto.
+Qed.
+
+Lemma nodupb_spec l : nodupb l = true -> NoDup l.
+Proof.
+  induction l as [|x l IH]; cbn [nodupb]; [constructor|]. intros H. apply andb_true_iff in H as [H1 H2].
+  constructor; [|auto]. intros Hin. apply mem_str_In in Hin. rewrite Hin in H1. discriminate.
+Qed.
+
+Lemma wfb_spec t : wfb t = true -> WF t.
+Proof.
+  unfold wfb, WF. intros H. apply andb_true_iff in H as [H1 H2]. split; [apply nodupb_spec; exact H1|].
+  rewrite forallb_forall in H2. apply Forall_forall. intros m Hm. specialize (H2 m Hm). lia.
+Qed.
+
+Lemma disjointb_spec t : disjointb t = true -> Disjoint t.
+Proof.
+  unfold disjointb, Disjoint. rewrite forallb_forall. intros H s Hs Hin. specialize (H s Hs).
+  apply mem_str_In in Hin. rewrite Hin in H. discriminate.
+Qed.
